@@ -290,3 +290,15 @@ class ChunksOf(Shape):
         mk.assume(n >= 0)
         arr = self.resolve_arr(mk)
         return ChunkList(SBytes(arr, lo, n))
+
+
+class Choice(Shape):
+    """an integer that is one of a few constants, kept symbolic (no path fork)"""
+
+    def __init__(self, *values):
+        self.values = values
+
+    def make(self, mk, name, idx=None):
+        v = IntT().make(mk, name, idx)
+        mk.assume(z3.Or(*[v == x for x in self.values]))
+        return v
